@@ -139,6 +139,26 @@ CHECKS = {
         'axioms); util.Bits hands over the symbolic +-1 list; float '
         'constants as exact binary rationals; numerics, tables and Spectral '
         'outside'),
+    'C13': (
+        True, '5/C13',
+        'symbolic execution of TestStructure.Run / Failed, TestSource, '
+        'TestBitString, CombinedPValue and LargeBinaryMatrixRank on symbolic '
+        'p-value histories (pysym, z3 reals, Fisher combination '
+        'uninterpreted); z3 decides the state of every sub-test after every '
+        'run against the documented rule',
+        'Bounded symbolic model checking of the decision rule: histories of '
+        '1..2 (3) runs, each returning a single float, raising '
+        'InsufficientDataError, or a list over two names that may be present '
+        'or absent per run; arbitrary real p-values, fail and repeat levels, '
+        'min_repetitions 0..2 (3): FAILED/PASSED/UNDECIDED, finished and '
+        'Failed() equal the rule after every run; both entry points return '
+        '"some sub-test failed" with two stub tests and <= 3 rounds; '
+        'CombinedPValue equals Fisher structurally (k <= 3 (5)); the large '
+        'matrix ladder uses exactly the sizes with size^2 <= n for all '
+        'n < 2^26. Statistical clauses are outside.',
+        'Fisher combination uninterpreted per list length; counterexamples '
+        'replayed with the real CombinedPValue (model values, then a grid of '
+        'concrete histories); known finding F8'),
 }
 
 NOT_APPLICABLE = {
